@@ -167,6 +167,16 @@ class CmdWord(Position):
         return s in info['cmdwords'] and s not in RESERVED_WORDS
 
 
+class CmdWordLater(CmdWord):
+    """the command word of the SECOND command of a step that also has an environment: not the
+    first word of the recipe line"""
+    name = 'command_word_later'
+
+    def script(self, strings):
+        return '\n'.join("command('c%d', cmds=[['rec', 'FIRST%d'], [%s, 'ID%d']], environment={'VVX': 'k'})"
+                         % (i, i, py(s), i) for i, s in enumerate(strings)) + '\n'
+
+
 class EnvValue(Position):
     name = 'command_env'
 
@@ -591,7 +601,7 @@ class CopyPath(FilePosition):
         return [[a.replace(pre, 'out#/') for a in x['argv']] for x in r]
 
 
-POSITIONS = [CmdArg(), CmdArgEnvBoth(), BuildStepArg(), CmdWord(), EnvValue(), EnvValueShellLine(), TestArg(),
+POSITIONS = [CmdArg(), CmdArgEnvBoth(), BuildStepArg(), CmdWord(), CmdWordLater(), EnvValue(), EnvValueShellLine(), TestArg(),
              DriverArg(False), DriverArg(True), DriverWord(), CompileOpt(), DefineOpt(),
              LinkOpt(), GlobalOpt(), CompileOptString(), LinkOptString(), EnvFlags(), ToolPath()]
 POS = {p.name: p for p in POSITIONS}
@@ -699,7 +709,7 @@ def _work(arg):
     backend, posname, strings, info = arg
     pos = POS[posname]
     rn = Runner(backend)
-    if posname == 'command_word':
+    if posname.startswith('command_word'):
         rn.add_cmdwords(strings)
     results = []     # (string, ok, observed, diag)
     evals = 0
@@ -735,7 +745,7 @@ def confirm(backend, posname, s, times=2):
     """Re-execute a failing singleton through the public CLI in fresh processes."""
     pos = POS[posname]
     rn = Runner(backend)
-    if posname == 'command_word':
+    if posname.startswith('command_word'):
         rn.add_cmdwords([s])
     outs = []
     for _ in range(times):
